@@ -80,6 +80,11 @@ var c07progs = map[string]string{
 	"getline-var":  `BEGIN { while ((r = (getline line)) > 0) obs(NR, FNR, line, RT); fin(NR, r) }`,
 	"getline-file": `BEGIN { while ((r = (getline line < "f0")) > 0) obs(NR, FNR, line, RT); fin(NR, r) }`,
 	"getline-cmd":  `BEGIN { while ((r = (cmd | getline line)) > 0) obs(NR, FNR, line, RT); fin(NR, r) }`,
+	// a history: f0 is read to its end and closed, then f0 and f1 are read alternately (two
+	// scanners alive at once, after a scanner has been retired)
+	"getline-two": `BEGIN { while ((getline line < "f0") > 0) n++; close("f0")
+	for (;;) { r1 = (getline a < "f0"); if (r1 > 0) obs(1, 0, a, RT); r2 = (getline b < "f1"); if (r2 > 0) obs(2, 0, b, RT); if (r1 <= 0 && r2 <= 0) break }
+	fin(NR, (r1 < 0 || r2 < 0) ? -1 : 0) }`,
 }
 
 type c07Engine struct{}
@@ -128,6 +133,7 @@ func (c07Engine) NewScenario() any        { return &c07Scn{} }
 var c07CuratedRS = []string{
 	"ab+", "a+", "\n\n+", "a*b", "a|abc", "abc|b", "(ab)+", "a?b", "[ab]c", "b*", "a{2,3}", "\r?\n", "ab|a",
 	"a(bc)?", "(a|ab)(c|bcd)", "x*", "a|b|cc", "aa|aaa", "a.c", "(a|b)+c", ";;", "ab", "abc", "\n+", "[\n;]+", "a|a*b", "()", "a*",
+	"[^a-z]", "[^xy\n]", "abcd|c", "[^a-c]+", "c|abcd", "[^[:alnum:]]",
 }
 
 func c07GenRegex(r *core.Rand) string {
@@ -202,12 +208,16 @@ func c07Alphabet(rs []byte) []string {
 		}
 	default:
 		for _, c := range s {
-			if strings.ContainsRune(`+*?|()[]{}.\^$,0123456789`, c) {
+			if strings.ContainsRune(`+*?|()[]{}.\^$,0123456789:`, c) {
 				continue
 			}
 			alpha = append(alpha, string(c), string(c))
 		}
-		alpha = append(alpha, "a", "b", "c", "\n")
+		alpha = append(alpha, "a", "b", "c", "d", "\n")
+		if strings.Contains(s, "[^") {
+			// a negated class matches anything else, in particular bytes that are not UTF-8
+			alpha = append(alpha, "\xff", "\x80", "\xc3\xa9", ";", " ")
+		}
 	}
 	return alpha
 }
@@ -301,8 +311,12 @@ func (c07Engine) Gen(r *core.Rand, tier string, i int) any {
 		sc.Mode, sc.Where = "getline", core.Pick(r, []string{"stdin", "file"})
 	case m < 84:
 		sc.Mode, sc.Where = "getline-var", core.Pick(r, []string{"stdin", "file"})
-	case m < 97:
+	case m < 90:
 		sc.Mode, sc.Where = "getline-file", ""
+	case m < 97:
+		sc.Mode, sc.Where = "getline-two", ""
+		data := c07GenInput(r, sc.RS, 16)
+		sc.Srcs = append(sc.Srcs[:1:1], c07Src{Data: data, D: genDelivery(r, len(data))})
 	default:
 		sc.Mode, sc.Where = "getline-cmd", ""
 		if sc.Enum == "allchunk" && len(sc.Srcs[0].Data) > 5 {
@@ -493,7 +507,7 @@ func c07Exec(sc *c07Scn, ds []core.Delivery, log *core.Log) *c07Obs {
 		Vars: []string{"RS", string(sc.RS)},
 	}
 	var fs *core.SimFS
-	needFS := sc.Where == "file" || sc.Where == "files2" || sc.Mode == "getline-file" || sc.Mode == "getline-cmd"
+	needFS := sc.Where == "file" || sc.Where == "files2" || sc.Mode == "getline-file" || sc.Mode == "getline-cmd" || sc.Mode == "getline-two"
 	var readers []*core.ShapedReader
 	var stdinReader *core.SimReader
 	if needFS {
@@ -517,8 +531,12 @@ func c07Exec(sc *c07Scn, ds []core.Delivery, log *core.Log) *c07Obs {
 				return r
 			}
 			d := core.Delivery{}
-			if k < len(ds) {
-				d = ds[k]
+			idx := k
+			if sc.Mode == "getline-two" { // f0 (to EOF), f0 again, f1
+				idx = []int{0, 0, 1}[k%3]
+			}
+			if idx < len(ds) {
+				d = ds[idx]
 			}
 			sr := &core.ShapedReader{Under: r, Name: fmt.Sprintf("src%d", k), D: d, Stats: &obs.Stats, Log: log}
 			k++
@@ -528,7 +546,7 @@ func c07Exec(sc *c07Scn, ds []core.Delivery, log *core.Log) *c07Obs {
 		defer func() { interp.VerifWrapReader = nil }()
 	}
 	switch {
-	case sc.Mode == "getline-file":
+	case sc.Mode == "getline-file", sc.Mode == "getline-two":
 	case sc.Mode == "getline-cmd":
 		cfg.ShellCommand = []string{simshPath(), "-"}
 		cfg.Vars = append(cfg.Vars, "cmd", "c0;cat:"+fs.Path("f0"))
@@ -541,6 +559,20 @@ func c07Exec(sc *c07Scn, ds []core.Delivery, log *core.Log) *c07Obs {
 		cfg.Args = []string{"f0", "f1"}
 	}
 	obs.Res = execProgram(prog, cfg)
+	if sc.Mode == "getline-two" {
+		var g []c07Rec
+		for src := 1; src <= 2; src++ {
+			for _, rec := range obs.Recs {
+				if rec.NR == src {
+					g = append(g, c07Rec{Rec: rec.Rec, RT: rec.RT})
+				}
+			}
+		}
+		obs.Recs = g
+		if len(readers) == 3 { // bounds as [f0, f1]: the first pass over f0 is not the observed one
+			readers = readers[1:]
+		}
+	}
 	if stdinReader != nil {
 		obs.Bounds = append(obs.Bounds, stdinReader.Bounds)
 	}
@@ -571,6 +603,7 @@ func (e c07Engine) Run(scAny any, keep bool) core.Outcome {
 	// Baseline: one-shot delivery of every source, fault-free.
 	base := make([]core.Delivery, len(sc.Srcs))
 	baseObs := c07Exec(sc, base, nil)
+	c07base = baseObs
 
 	runOne := func(ds []core.Delivery) *core.Failure {
 		log := core.NewLog(keep)
@@ -892,12 +925,17 @@ func c07Classify(sc *c07Scn, datas [][]byte, obs *c07Obs, refs []*c07Ref, f *cor
 	rs := string(sc.RS)
 	isRegex := len(rs) > 1 && rs != "\n"
 	if isRegex && core.IsOpen("F-C07-1R") && len(datas) >= 1 {
-		if c07Unstable(rs, datas, obs) {
+		// the run that left the reference split may be the observed one or the one-shot baseline
+		// (whose single read is cut by the scanner's own buffer)
+		if c07Unstable(rs, datas, obs) || (c07base != nil && c07Unstable(rs, datas, c07base)) {
 			f.Known = "F-C07-1R"
 		}
 	}
 	return f
 }
+
+// c07base is the one-shot baseline run of the scenario being checked.
+var c07base *c07Obs
 
 // c07Unstable implements the classifier Unstable(S) of finding F-C07-1R: at the first
 // record where the observed split leaves the reference split there is a buffer boundary b
